@@ -988,6 +988,20 @@ def gen_guess(src):
     else:
         raise Fail('guess_combinator_by_triplet: unexpected statement in the loop')
     v = body[1].value
+    # the default may be built by a private single-return helper of the module that is given the target: `return _helper(target)`
+    if (isinstance(v, ast.Call) and isinstance(v.func, ast.Name) and v.func.id != 'CombinatorResult' and not v.keywords
+            and len(v.args) == 1 and isinstance(v.args[0], ast.Name) and v.args[0].id == 'target'):
+        h = next((n for n in mod.body if isinstance(n, ast.FunctionDef) and n.name == v.func.id), None)
+        hb = [s_ for s_ in (h.body if h is not None else []) if not is_doc(s_)]
+        if (h is not None and h.name.startswith('_') and len(h.args.args) == 1 and not h.args.defaults and not h.args.vararg and not h.args.kwarg
+                and len(hb) == 1 and isinstance(hb[0], ast.Return) and isinstance(hb[0].value, ast.Call)):
+            par = h.args.args[0].arg
+
+            class _Sub(ast.NodeTransformer):
+                def visit_Name(self, node):
+                    return ast.copy_location(ast.Name(id='target', ctx=node.ctx), node) if node.id == par else node
+            import copy as _copy
+            v = _Sub().visit(_copy.deepcopy(hb[0].value))
     if not (isinstance(v, ast.Call) and isinstance(v.func, ast.Name) and v.func.id == 'CombinatorResult' and not v.args):
         raise Fail('guess_combinator_by_triplet: default is not a CombinatorResult')
     kw = {k.arg: k.value for k in v.keywords}
